@@ -12,6 +12,7 @@ use Kind::*;
 #[derive(Debug, Clone, PartialEq)] struct FL { x: f64, y: f64 }
 #[derive(Debug, Clone, PartialEq)] struct Inner { id: i32, name: String, n: i32 }
 #[derive(Debug, Clone, PartialEq)] struct Outer { id: i32, inner: Inner, name: String, n: i32, also: Option<Inner> }
+#[derive(Debug, Clone, PartialEq)] struct Holder { o: Outer, k: i32, os: Vec<Outer> }
 #[derive(Debug, Clone, PartialEq)] struct Top { mid: Mid, mids: Vec<Mid>, res: Result<i32, String>, t3: (i32, Kind, Leaf), mm: BTreeMap<String, Leaf>, count: i32 }
 '''
 
@@ -108,7 +109,8 @@ TOP = Struct("Top", [("mid", MID), ("mids", Vec(MID)), ("res", Res(I32(), Str())
                      ("mm", MapT(LEAF)), ("count", I32())])
 INNER = Struct("Inner", [("id", I32()), ("name", Str()), ("n", I32())])
 OUTER = Struct("Outer", [("id", I32()), ("inner", INNER), ("name", Str()), ("n", I32()), ("also", Opt(INNER))])
-ROOTS = [Vec(KIND), Opt(KIND), Res(KIND, Str()), Tup([Opt(KIND), I32()]), Vec(Opt(KIND)), OUTER, OUTER, TOP, MID, LEAF, KIND, Vec(I32()), Opt(LEAF), Tup([I32(), Str()]), MapT(I32()), Vec(LEAF), I32(), Str(),
+HOLDER = Struct("Holder", [("o", OUTER), ("k", I32()), ("os", Vec(OUTER))])
+ROOTS = [HOLDER, HOLDER, Opt(OUTER), Vec(KIND), Opt(KIND), Res(KIND, Str()), Tup([Opt(KIND), I32()]), Vec(Opt(KIND)), OUTER, OUTER, TOP, MID, LEAF, KIND, Vec(I32()), Opt(LEAF), Tup([I32(), Str()]), MapT(I32()), Vec(LEAF), I32(), Str(),
          Opt(I32()), Vec(Str()), Res(I32(), Str()), Vec(Opt(I32())), Tup([KIND, Vec(I32())])]
 
 
@@ -434,6 +436,11 @@ class Gen:
             sf, sft = rng.choice([x for x in ft.fields if not isinstance(x[1], Bx)])
             self.note("op:nested")
             return "%s.%s: %s" % (fname, sf, self.pat(sft, fv[sf], depth + 1, nested=False))
+        if isinstance(ft, Struct) and (0.35 <= r < 0.5 or (ft is OUTER and r < 0.7)):
+            # a method path whose pattern is a wildcard struct (which may again contain method paths, followed by further fields):
+            # every field of the inner pattern is read from the value of THIS path
+            self.note("op:method-then-wstruct")
+            return "%s.clone(): %s" % (fname, self.struct_pat(ft, fv, depth + 1, "_", force_wild=True))
         if isinstance(ft, Tup) and r < 0.35:
             i = rng.randrange(len(ft.ts))
             self.note("op:tuple-index")
@@ -446,10 +453,10 @@ class Gen:
             return "%s.len(): %s" % (fname, self.ilit(len(fv)))
         return "%s: %s" % (fname, self.pat(ft, fv, depth + 1))
 
-    def struct_pat(self, t, pv, depth, path, fields=None, allow_wild=True):
+    def struct_pat(self, t, pv, depth, path, fields=None, allow_wild=True, force_wild=False):
         rng = self.rng
         fields = fields or t.fields
-        wild = allow_wild and rng.random() < 0.2
+        wild = force_wild or (allow_wild and rng.random() < 0.2)
         rest = wild or rng.random() < 0.6
         names = [f for f, _ in fields]
         chosen = list(fields) if not rest else rng.sample(fields, rng.randint(0, len(fields)))
@@ -475,6 +482,21 @@ class Gen:
             if wild and entry.startswith("*"):
                 entry = "%s: _" % f                   # known finding: `*` inside a wildcard struct (not generated here)
             items.append(entry)
+        # decoys: a field g of struct type that has field names in common with this struct (Outer.inner: id, name, n).  After an entry
+        # that goes INTO g (through a method path or a nested path), the same-named field of THIS struct is constrained with the value
+        # the field has one level down: an expansion that reads the later field from the wrong place (the last path's result, a
+        # stale temporary, a shadowed binding) passes where it must fail
+        shared = [(g, gt, f, ft) for g, gt in fields if isinstance(gt, Struct) for f, ft in gt.fields
+                  if (f, type(ft)) in [(x, type(y)) for x, y in fields] and isinstance(ft, (I32, Str)) and pv[g][f] != pv[f]
+                  and not (isinstance(ft, Str) and (pv[g][f] not in WORDS))]
+        if shared and rest and rng.random() < (0.9 if force_wild else 0.35):
+            g, gt, f, ft = rng.choice(shared)
+            self.note("struct:decoy-from-one-level-down")
+            inner_entry = self.field_entry(rng.choice([x for x, _ in gt.fields]), dict(gt.fields)[rng.choice([x for x, _ in gt.fields])], None, depth) if False else None
+            into = rng.choice(["%s.clone(): _ { %s: _, .. }" % (g, f), "%s.clone(): _ { %s.clone(): _, .. }" % (g, f),
+                               "%s.%s.clone(): _" % (g, f), "%s.clone(): %s" % (g, self.struct_pat(gt, pv[g], depth + 1, "_", force_wild=True))])
+            lit = self.ilit(pv[g][f]) if isinstance(ft, I32) else "\"%s\"" % pv[g][f]
+            items = items + [into, "%s: %s%s" % (f, rng.choice(["", "== "]), lit)]
         return "%s { %s }" % ("_" if wild else path, ", ".join(items + ([".."] if rest else [])))
 
     def enum_pat(self, t, pv, depth, hit):
@@ -777,6 +799,8 @@ def gen_case(rng, hit=None, closures=True):
         return shape_only_case(rng)
     t = rng.choice(ROOTS)
     vr, vm, pv = gen_value(rng, t)
+    if hit is None and t is HOLDER and rng.random() < 0.6:
+        hit = 1.0        # everything else matches: a decoy (see struct_pat) is then the only mismatch of the assertion
     g = Gen(rng, hit if hit is not None else rng.choice([1.0, 0.9, 0.75, 0.6, 0.5]), closures)
     pat = g.pat(t, pv, 0, nested=False)
     return {"type": t.rust, "value_rust": vr, "value_model": vm, "pattern": pat, "kinds": g.kinds}
